@@ -136,6 +136,9 @@ def main():
     cache = FnCache()
     from harness.lie import prelude as _prelude
     _prelude(run, report=("convert", "matrix"))
+    from harness import history as _history      # engine H: call histories in fresh interpreters (spec/LieHistory.tla)
+    if _history.hook(run, tier, {"conv", "shadowseq", "mat"}):
+        return run.finish()
     # the opposite order of first uses (B321 before the user-built Euler groups) in a process of its own
     import subprocess, os
     pr = subprocess.run([sys.executable, "-m", "harness.lie", "b321_first"], capture_output=True, text=True, env=dict(os.environ), cwd="/verif")
